@@ -14,6 +14,9 @@ CHECKS = {
  'C20': dict(level='model_checking', engine='seq-bfs', technique='explicit-state BFS over real OggVorbis_File states with ov_halfrate toggles in the alphabet; differential against half-rate / full-rate linear decode',
    text='BFS over histories of reads, seeks and half-rate toggles (depth-bounded in quick, deeper in thorough); in every state the read-through is bit-identical to the half-rate or full-rate linear decode at the reported position, totals unchanged, sample seeks land on the even position; linear half-rate decode delivers ceil(N/2) per link; streaming handles toggled before the first read.',
    note='zoo links have even lengths; refusal on 64-sample-block links needs the synthesised stream (added with vspec)', ref='C20'),
+ 'C09': dict(level='exploration', engine='enum-chainx', technique='bounded-exhaustive enumeration of link sequences x page layouts on the real open/read path, differential against packet-API solo decodes and construction ground truth',
+   text='All chains of length 1..3 (4 thorough) over 7 link kinds (different rates/channels/block sizes, single-page link, zero-sample link, non-zero start granule, multiplexed foreign stream) x page layouts, mixed layouts, 27 large chains that force CHUNKSIZE bisection and backward hops, long alternating chains; each opened seekably and checked: link count, per-link channels/rate/serial/comment/vendor/length/time, sums, read-through bit-identical to the concatenation of solo decodes with no negative return.',
+   note='solo reference decodes use the packet API of the same library build; exhaustive within the listed kinds/layouts/lengths', ref='C09'),
 }
 NA_REASON = 'check not built yet in this session (work in progress; see DESIGN.md section 7 for the order)'
 
@@ -40,6 +43,7 @@ def main():
         'hooks': {'guard': 'XIPH_VORBIS_VERIF', 'enable': 'no source hooks are needed: harnesses include internal headers, wrap the allocator at link time and drive the public callback table; the guard name is reserved only',
                   'baseline_off_cmd': 'cmake --build /repo/_build && ctest --test-dir /repo/_build -j8 --timeout 900', 'source_commits': [], 'add_only': True},
         'engines': [
+            {'name': 'enum-chainx', 'path': 'checks/c09.py + harness/chainx.c', 'serves_properties': ['C09', 'C10'], 'kind_free_text': 'bounded-exhaustive enumeration of chains / delivery schedules executed on the real vorbisfile, differential oracle'},
             {'name': 'seq-bfs', 'path': 'pylib/seekgraph.py + harness/vfx.c', 'serves_properties': ['C07', 'C08', 'C20'], 'kind_free_text': 'explicit-state breadth-first search over the real OggVorbis_File; state = replayed history, identified by canonical hash'},
         ],
         'checks': checks,
